@@ -343,7 +343,8 @@ pub fn observe(input: &str) -> Value {
             }
             None => v,
         },
-        Err(_) => json!({"timeout": frontp::TIMEOUT_S}),
+        // second chance, alone in a process of its own and with a generous limit
+        Err(_) => frontp::observe_isolated("C13-child", input, &[]),
     }
 }
 
